@@ -26,10 +26,15 @@ def make_world(seed, jitter):
             for _ in range(7):
                 mode = rng.choice(modes)
                 j = rng.randint(0, jitter) if jitter else 0
-                r = w.read_from_transcript(t, mode=mode, jitter=j, polya=rng.random() < 0.5, indels=1 if rng.random() < 0.3 else 0,
-                                           flag=rng.choice((0, 16)))
+                eqx = rng.random() < 0.35
+                r = w.read_from_transcript(t, mode=mode, jitter=j, polya=rng.random() < 0.5, indels=1 if (rng.random() < 0.3 and not eqx) else 0,
+                                           flag=rng.choice((0, 16)), mismatches=rng.randint(4, 9) if eqx else 0)
                 if r is not None:
                     r.truth["class"] = "conforming"
+                    if eqx:
+                        # the same alignment written with =/X operations, several mismatching bases per exon (away from the junctions)
+                        w.to_eqx(r)
+                        r.truth["eqx"] = True
             # non-conforming reads
             ex = list(t.exons)
             if n >= 4:
@@ -123,7 +128,7 @@ def make_world(seed, jitter):
 def run(chk, scratch):
     thorough = chk.tier == "thorough"
     chk.rule = ("worlds with multi-isoform, overlapping (shared exons) and antisense genes on both strands over 3 chromosomes; conforming reads derived from annotated "
-                "isoforms (exact, 5'/3'/both-side truncated, junction jitter <= delta, exonic indels, polyA/polyT at the 3' end, mono-exonic) and non-conforming reads "
+                "isoforms (exact, 5'/3'/both-side truncated, junction jitter <= delta, exonic indels, =/X CIGAR operations with mismatching bases, polyA/polyT at the 3' end, mono-exonic) and non-conforming reads "
                 "(skipped exon >= 150 bp, extra exon, retained intron, intron retained inside a terminal exon by a read sharing its intron chain with an end-extended read, site shifted >= 110 bp, end extended >= 420 bp, 5' end extended >= 420 bp on a read whose 3' end carries a polyA/polyT tail, hidden isoforms); matching presets x data types. "
                 "non-trivial = distinct (isoform exon count, read mode, jitter, polyA, preset) among judged reads whose locus has >= 2 isoforms")
     jobs = []
@@ -199,7 +204,7 @@ def run(chk, scratch):
                 chk.note()
                 ngene_iso = sum(1 for t in overl)
                 if ngene_iso >= 2:
-                    chk.nontrivial.add((min(len(T.exons), 8), tr.get("mode"), tr.get("jitter", 0) > 0, tr.get("polya"), preset))
+                    chk.nontrivial.add((min(len(T.exons), 8), tr.get("mode"), tr.get("jitter", 0) > 0, tr.get("polya"), preset, bool(tr.get("eqx"))))
                 mode = tr.get("mode")
                 if atype not in CONSISTENT:
                     ev = sorted(set(e.split(":")[0] for a in recs for e in a.events.split(",")))[:6]
